@@ -1,3 +1,6 @@
+#ifndef messerr
+#define messerr(...) ((void)0)
+#endif
 // Route X environment for the _serialize/_deserialize pair of NeighMoving (+ ANeigh): the neutral file is a GHOST TAPE of typed records.
 #define nullptr 0
 #define MAX(a,b) (((a) > (b)) ? (a) : (b))
